@@ -252,7 +252,7 @@ def main():
         return v, n
 
     if a.mode != 'replay':
-        for c_, q_ in corpus_objects(histories=(a.prop == 'C07')):          # distilled regression inputs first
+        for c_, q_ in corpus_objects(histories=True):          # distilled regression inputs first
             if c_.get('order') == 'r3' and not hasattr(q_, 'iota2'):
                 q_.calculate_shear()
             try:
